@@ -207,6 +207,11 @@ func runProperty(o *runOpts, prop string) ([]*FuncResult, error) {
 			if c.Flags["tags"] == "default" && strings.Contains(tags, "5BytesOffset") {
 				continue
 			}
+			if c.has("thoroughonly") && o.tier != "thorough" && o.only == "" {
+				// a slow (typically bounded) check that is part of the thorough tier only
+				fmt.Printf("NOTE: %s is checked in the thorough tier only\n", shortKey(c.Key()))
+				continue
+			}
 			fr := x.verify(c)
 			frs = append(frs, fr)
 			if o.verbose {
